@@ -501,6 +501,7 @@ type Obs struct {
 	Header      http.Header
 	Body        []byte
 	BodyErr     error
+	Trailer     http.Header // trailer fields as available after the body was read
 	CacheStatus string
 	Tok         string // token parsed from the body ("" if none)
 	HdrTok      string
@@ -598,6 +599,7 @@ func (w *W) Do(req *http.Request) *Obs {
 				}()
 				o.Body, o.BodyErr = io.ReadAll(o.Resp.Body)
 				_ = o.Resp.Body.Close()
+				o.Trailer = o.Resp.Trailer.Clone()
 			}()
 		}
 		if i := bytes.IndexByte(o.Body, '|'); i > 0 && bytes.HasPrefix(o.Body, []byte("tok")) {
